@@ -330,10 +330,21 @@ def block_work(P, item):
 
 # ---------------------------------------------------------------- C: compute_dmdelays in exact arithmetic
 class OArr(np.ndarray):
-    """object array of symbolic reals: dtype casts are identities in the exact model, round is half-even"""
+    """object array of symbolic reals: float casts are identities in the exact model, a cast to an
+    integer dtype truncates toward zero, round is half-even"""
 
     def astype(self, dt, *a, **k):
-        return self
+        try:
+            isint = np.issubdtype(np.dtype(dt), np.integer)
+        except TypeError:
+            isint = False
+        if not isint:
+            return self
+        out = np.empty(self.shape, dtype=object)
+        for i in np.ndindex(self.shape):
+            v = self[i]
+            out[i] = v.trunc() if isinstance(v, SReal) else v
+        return out.view(OArr)
 
     def round(self, *a, **k):
         out = np.empty(self.shape, dtype=object)
@@ -396,7 +407,13 @@ def delays_work(P, item):
         elif r == z3.unknown:
             P.inconclusive_(f"compute_dmdelays/{name}: solver unknown")
         else:
-            P.inconclusive_(f"compute_dmdelays/{name}: exact-arithmetic model {s.model()} (no float replay driver)")
+            m = s.model()
+
+            def fv(t):
+                v = m.eval(t, model_completion=True)
+                return float(Fraction(v.numerator_as_long(), v.denominator_as_long()))
+            params_ = dict(kind="delays", check=name, freqs=[fv(u) ** -0.5 for u in us], ref=fv(ur) ** -0.5, dm=fv(dm), tsamp=fv(ts))
+            violation(P, "compute_dmdelays-" + name[:30].replace(" ", "_").replace("(", "").replace(")", "").replace(">", "").replace("=", ""), f"compute_dmdelays: {name}", params_)
     P.reached += 1
     # reference frequency selection of Header.get_dmdelays
     from sigpyproc import header
